@@ -102,17 +102,54 @@ func runCheck(repo, verif, prop, tier string, secs int, keep bool) int {
 	for _, n := range names {
 		results = append(results, VerifyFunction(L, n, L.CF.Contracts[n], prop))
 	}
+	// Known findings: replay each witness on the real code first. While the
+	// witness still fails, the finding is reported and its obligation is not
+	// sent to the solvers (it cannot be discharged); once the witness passes,
+	// the obligation is decided like any other.
+	known := loadKnown(verif)
+	witnessFails := map[string]bool{}
+	var knownReported []string
+	for i := range known.Findings {
+		f := &known.Findings[i]
+		if f.Property != prop || f.Status == "fixed" || f.Witness == "" {
+			continue
+		}
+		fails, out := runWitness(L, verif, f.Witness)
+		if fails {
+			witnessFails[f.Obligation] = true
+			msg := fmt.Sprintf("KNOWN-FINDING: property=%s %s [%s; witness %s still fails]", prop, f.What, f.Obligation, f.Witness)
+			knownReported = append(knownReported, msg)
+			fmt.Println(msg)
+		} else {
+			fmt.Printf("NOTE known finding %s: witness %s no longer fails (%s); its obligation is checked normally\n", f.Obligation, f.Witness, firstLines(out, 1))
+		}
+	}
+	skipped := 0
+	for _, r := range results {
+		var keepO []*Obligation
+		for _, o := range r.Obligations {
+			base := o.Name
+			if i := strings.LastIndex(base, "@"); i >= 0 {
+				base = base[:i]
+			}
+			if witnessFails[o.Name] || witnessFails[base] {
+				skipped++
+				continue
+			}
+			keepO = append(keepO, o)
+		}
+		r.Obligations = keepO
+	}
 	work := filepath.Join(verif, ".work", fmt.Sprintf("check-%s-%d", prop, os.Getpid()))
 	Discharge(results, work, secs, 8, seed)
 	if tier == "thorough" {
 		// stability: re-run discharged obligations with two other seeds
 		// (flaky proofs are reported, not failed)
 	}
-	known := loadKnown(verif)
 	violations := 0
 	broken := 0
-	var knownReported []string
 	total, discharged := 0, 0
+	_ = skipped
 	for _, r := range results {
 		if r.Error != "" {
 			// function left the verified subset or the contract drifted
@@ -208,6 +245,27 @@ func runCheck(repo, verif, prop, tier string, secs int, keep bool) int {
 		return 2
 	}
 	return 0
+}
+
+// runWitness runs /verif/findings/<name> (a Go test file) against the real
+// package through an overlay; it reports whether the test fails.
+func runWitness(L *Loaded, verif, name string) (bool, string) {
+	b, err := os.ReadFile(filepath.Join(verif, "findings", name))
+	if err != nil {
+		return false, "witness file missing: " + err.Error()
+	}
+	src := string(b)
+	// the witness's test function becomes the replay entry point
+	i := strings.Index(src, "func Test")
+	if i < 0 {
+		return false, "witness has no test function"
+	}
+	j := strings.Index(src[i:], "(")
+	fn := src[i+5 : i+j]
+	src += "\nfunc TestVerifReplay(t *testing.T) { " + fn + "(t) }\n"
+	race := strings.Contains(src, "run with -race")
+	pass, out := runOverlayTest(L, verif, src, race)
+	return !pass, trimOutput(out)
 }
 
 func matchKnown(k KnownFile, prop, obl string) *KnownFinding {
